@@ -234,10 +234,23 @@ def kernel_crosscheck():
     keep = list(_XS["keep"])
     if not keep:
         return {"cases": 0, "equal": True}
+    # both sides are evaluated now, with the development as it stands and with nobody rebuilding it meanwhile (the
+    # model may have been rebuilt since this check started — e.g. by another check after an edit of coq/Model)
+    okb, log = build_model()
+    if not okb:
+        return {"cases": len(keep), "equal": False, "mismatch": "model build failed: " + log[-500:]}
+    lock = _lock()
     try:
-        got = coq_eval_sample([c for c, _ in keep], timeout=300)
-    except Exception as e:
-        return {"cases": len(keep), "equal": False, "mismatch": "coqc evaluation failed: " + exc_info(e)}
+        saved = dict(_XS, keep=list(_XS["keep"]))
+        again = run_model([c for c, _ in keep])
+        _XS.update(saved)
+        keep = [(c, r) for (c, _), r in zip(keep, again)]
+        try:
+            got = coq_eval_sample([c for c, _ in keep], timeout=300)
+        except Exception as e:
+            return {"cases": len(keep), "equal": False, "mismatch": "coqc evaluation failed: " + exc_info(e)}
+    finally:
+        lock.close()
     for (c, r), g in zip(keep, got):
         if r != g:
             return {"cases": len(keep), "equal": False, "mismatch": {"case": [c[0], c[1]], "ocaml": r, "coq": g}}
